@@ -1,0 +1,56 @@
+//go:build verif
+
+package base
+
+import (
+	"fmt"
+	"sort"
+	"ti/verifhook"
+)
+
+// Builtin-table monitor: the set of TFrame keys that exist after the
+// configuration has been loaded, and a canonical rendering of their entries.
+
+var verifBuiltinKeys []FrameKey
+
+var verifSkipFields = map[string]bool{
+	"beforeEvaluateCode": true,
+	"IsBeforeSpace":      true,
+}
+
+func VerifCaptureBuiltinKeys() {
+	verifBuiltinKeys = verifBuiltinKeys[:0]
+
+	for key := range TFrame {
+		verifBuiltinKeys = append(verifBuiltinKeys, key)
+	}
+
+	sort.Slice(verifBuiltinKeys, func(i, j int) bool {
+		return verifKeyString(verifBuiltinKeys[i]) < verifKeyString(verifBuiltinKeys[j])
+	})
+}
+
+func verifKeyString(k FrameKey) string {
+	return fmt.Sprintf(
+		"frame=%q class=%q method=%q var=%q private=%v static=%v",
+		k.frame, k.targetClass, k.targetMethod, k.targetVariable, k.isPrivate, k.isStatic,
+	)
+}
+
+// VerifDumpBuiltin renders every captured entry; keys and values are
+// parallel slices in a fixed order.
+func VerifDumpBuiltin() (keys []string, values []string) {
+	for _, key := range verifBuiltinKeys {
+		keys = append(keys, verifKeyString(key))
+
+		t, ok := TFrame[key]
+		switch {
+		case !ok:
+			values = append(values, "<deleted>")
+		default:
+			values = append(values, verifhook.Render(t, verifSkipFields))
+		}
+	}
+
+	return keys, values
+}
